@@ -1,0 +1,7 @@
+//go:build !verif
+
+package mint
+
+import "github.com/elnosh/gonuts/mint/storage"
+
+func verifWrapLoad(db storage.MintDB) storage.MintDB { return db }
